@@ -111,6 +111,7 @@ def main(argv=None):
     scratch.root()  # created before workers fork, removed when the run ends
     try:
         if a.replay:
+            os.environ["VERIF_REPLAY"] = "1"   # single-process replay: nothing is prepared by other units
             body = json.load(open(a.replay))
             acc = core.Acc()
             core._worker_init(module.__name__)
